@@ -191,6 +191,13 @@ def observe_roundtrip(case):
         obs["loaded"] = table_rows(ts2)
     except Exception as e:
         obs["load_err"] = "%s: %s" % (type(e).__name__, str(e)[:200])
+    # load_text without a population file: the documented back-fill
+    try:
+        kw2 = {k: io.StringIO(v) for k, v in texts.items() if k != "populations"}
+        ts3 = tskit.load_text(**kw2, sequence_length=ts.sequence_length, strict=True, base64_metadata=True)
+        obs["backfill"] = [r.metadata.hex() for r in ts3.tables.populations]
+    except Exception as e:
+        obs["backfill"] = {"err": "%s: %s" % (type(e).__name__, str(e)[:200])}
     # the individual parsers on the same text (no sort in between)
     parsed = {}
     for k in TABLES:
@@ -270,6 +277,12 @@ def oracle_roundtrip(case, obs):
         out += compare_tables(obs["orig"], obs["loaded"], "reload")
         if obs["loaded"]["sequence_length"] != obs["orig"]["sequence_length"]:
             out.append(("reload-sequence-length", "%s vs %s" % (obs["loaded"]["sequence_length"], obs["orig"]["sequence_length"])))
+    # no population file: "a minimal set of rows are added" for the populations the nodes refer to
+    if "backfill" in obs and not out:
+        pops = [r[2] for r in obs["orig"]["nodes"]] + [-1]
+        want = [""] * (max(pops) + 1)
+        if obs["backfill"] != want and not (isinstance(obs["backfill"], dict) and obs["orig"]["migrations"]):
+            out.append(("load-text-population-backfill", "expected %d empty populations, got %r" % (len(want), obs["backfill"])))
     # parse_* directly: same rows in the same order (flags reduced to the sample flag)
     o2 = dict(obs["orig"])
     o2["nodes"] = [[r[0]] + r[1:] for r in obs["orig"]["nodes"]]
@@ -304,7 +317,7 @@ class Roundtrip(Family):
     prelude = "From Coq Require Import String.\nFrom TskVerif Require Import Base.Common C17.Model.\nOpen Scope Z_scope."
 
     def generate(self, rng, tier):
-        n = 700 if tier == "quick" else 6000
+        n = 500 if tier == "quick" else 4000
         for _ in range(n):
             yield gen_roundtrip(rng)
 
@@ -520,7 +533,7 @@ class Parsers(Family):
         for kind in TABLES:
             for _ in range(6):
                 yield gen_parser_case(rng, kind, minimal=True)
-        n = 1500 if tier == "quick" else 20000
+        n = 1200 if tier == "quick" else 12000
         for _ in range(n):
             yield gen_parser_case(rng)
 
@@ -565,10 +578,10 @@ def gen_b64(rng, tier):
             yield {"op": "roundtrip", "bytes": bytes(rng.randrange(256) for _ in range(n)).hex()}
     for b in (b"\x00", b"\xff", b"\x00\x00\x00", b"\xff\xff\xff", b"\xfb\xff", b"\t\n", bytes(range(256))):
         yield {"op": "roundtrip", "bytes": b.hex()}
-    for _ in range(150 if tier == "quick" else 3000):
+    for _ in range(150 if tier == "quick" else 1500):
         yield {"op": "roundtrip", "bytes": bytes(rng.randrange(256) for _ in range(rng.randrange(0, 70))).hex()}
     # decoding of damaged text (the parser side accepts whatever b64decode accepts)
-    for _ in range(250 if tier == "quick" else 5000):
+    for _ in range(250 if tier == "quick" else 2500):
         s = own_b64(bytes(rng.randrange(256) for _ in range(rng.randrange(0, 9))))
         s = list(s)
         for _k in range(rng.randrange(0, 4)):
